@@ -509,6 +509,17 @@ def _run_check(pid, tier, seed, udir, meta, work, ev_path, t0, only):
         rec['native_replay'] = native
         with open(replay_path, 'w') as f:
             json.dump(rec, f, indent=1)
+        # jobs over an over-approximate model (confirm=native): a failed obligation is a violation only when the
+        # native driver reproduces it on the real code; otherwise it is an undecided abstraction artefact
+        byname = dict((j.name, j) for j in jobs)
+        if all(byname[r['job']].a.get('confirm') == 'native' for r, _ in violations) and not (native or {}).get('reproduced'):
+            for r, _ in violations:
+                r['status'] = 'undecided'
+                r['reason'] = 'over-approximate model (opaque values havoced): the counterexample was not reproduced on the real code'
+            undecided = [r for r in results if r['status'] == 'undecided']
+            failed = [r for r in results if r['status'] == 'fail']
+            violations = []
+            replay_path = None
 
     # ---- evidence
     proof_results = [r for r in results if not r['bounded']]
